@@ -2237,7 +2237,7 @@ coap_read_session(coap_context_t *ctx, coap_session_t *session, coap_tick_t now)
               session->partial_read = 0;
             }
           } else {
-            session->partial_read += bytes_read;
+            session->partial_read += n;
           }
         } else {
           session->read_header[0] = *p++;
